@@ -12,6 +12,9 @@ Inductive kw :=
 | KBool | KString | KDateTime | KCapitalFn | KList
 | KPrint | KAssert | KAssertEq | KType.
 
+Definition kw_eq_dec : forall a b : kw, {a = b} + {a <> b}.
+Proof. decide equality. Defined.
+
 Inductive token :=
 | TLParen | TRParen | TLBracket | TRBracket | TLCurly | TRCurly
 | TPlus | TMinus | TMultiply | TPower | TDivide | TComma | TArrow | TEqual
